@@ -209,3 +209,48 @@ func H_C10_worker() {
 	checkItems(db2, r, "C10w.after")
 	vCover("C10w.done")
 }
+
+// H_C10_os: two concurrent readers (Get/GetAppend/Has/Items by case and choice)
+// on the plain OS file system (kernel model), lockset monitor on: the file
+// objects of package fs must not be written by readers that hold only the shared lock.
+func H_C10_os() {
+	n := 2
+	vlen := 2
+	rec := 10 + 8 + vlen
+	db, err := Open("c10os", smallOpts(fs.OS, 2, rec))
+	vAssert(err == nil, "C10os.open")
+	if err != nil {
+		return
+	}
+	r := newRef(n, 8)
+	applyOp(db, r, 0, 0, vlen, "C10os.prefix")
+	applyOp(db, r, 0, 1, vlen, "C10os.prefix")
+	readers := []int{2, 3, 4, 6}
+	k1 := readers[vCase()%len(readers)]
+	k2 := readers[vChoice("kind2", len(readers))]
+	var g1, g2 []byte
+	vFlag("lockset", 1)
+	vGo(func() {
+		if k1 == 2 {
+			g1, _ = db.Get(r.keys[0])
+		} else {
+			vPublicOp(db, k1, r.keys[0], nil, "a")
+		}
+	})
+	vGo(func() {
+		if k2 == 2 {
+			g2, _ = db.Get(r.keys[1])
+		} else {
+			vPublicOp(db, k2, r.keys[1], nil, "b")
+		}
+	})
+	vJoin()
+	vFlag("lockset", 0)
+	if k1 == 2 {
+		vAssert(g1 != nil && vEqBytes(g1, r.val[0]), "C10os.get1")
+	}
+	if k2 == 2 {
+		vAssert(g2 != nil && vEqBytes(g2, r.val[1]), "C10os.get2")
+	}
+	vCover("C10os.done")
+}
